@@ -7,3 +7,11 @@ import NTV.Proofs.C15
 #print axioms NTV.C15.equal_modules_give_equal_orders
 #print axioms NTV.C15.stored_basis_spans_input
 #print axioms NTV.C15.from_basis_idempotent
+#print axioms NTV.C15.union_spans
+#print axioms NTV.C15.union_least
+#print axioms NTV.C15.union_comm
+#print axioms NTV.C15.union_absorb
+#print axioms NTV.C15.union_idem
+#print axioms NTV.C15.union_contains
+#print axioms NTV.C15.power_basis_discriminant
+#print axioms NTV.C15.singly_gen_linear_panics
